@@ -2,7 +2,7 @@ SPECIFICATION Spec
 CONSTANTS
   Is = {0, 1, 2, 3}
   Ts = {0, 1, 2, 3, 4, 5, 6}
-  MaxD = 4
-  Horizon = 10
+  MaxD = 3
+  Horizon = 9
 INVARIANTS InvPing InvDisabled InvNotEarly InvNotLate InvNoFalseOutsideF12 InvClamp
 CHECK_DEADLOCK FALSE
